@@ -111,4 +111,33 @@ def P.descOf (p : P) (th : Thread) (k : Frame) : Option FrameDesc :=
   descOfCols th.strings.table.strings p.libs.getLibName (p.cats.map (fun c => (c.name, c.color, c.subs)))
     th.nsyms.addrs th.nsyms.sizes th.nsyms.libs th.nsyms.names k
 
+/-! ### what the caller of a frame method supplies (specification side) -/
+
+/-- names behind a subcategory handle `(c, s)`: category (name, colour), subcategory name -/
+def subNames (cats : List Cat) (c s : Nat) : Option ((Str × Nat) × Str) :=
+  match cats[c]? with
+  | none => none
+  | some cat =>
+    match cat.subs[s]? with
+    | none => none
+    | some sub => some ((cat.name, cat.color), sub)
+
+/-- an optional global string handle, resolved -/
+def P.optGstr (p : P) : Option Nat → Option (Option Str)
+  | none => some none
+  | some g => (p.gstr g).map some
+
+/-- the frame `handle_for_frame_with_label(_and_source_location)` is asked to intern, in state `p`: the
+label string; the category / subcategory names behind the `SubcategoryHandle` its `IntoSubcategoryHandle`
+argument converts to; no library, address, native symbol; the file string, line, column; the flags -/
+def P.labelDesc (p : P) (str : Nat) (src : Option (Option Nat × Option Nat × Option Nat)) (sc : SubSpec)
+    (flags : Nat) : Option FrameDesc :=
+  match p.resolveSub sc with
+  | (p1, .ok c s) =>
+    match p.gstr str, subNames p1.cats c s, p.optGstr (src.bind (·.1)) with
+    | some label, some cs, some file =>
+      some ⟨label, cs.1, cs.2, none, none, none, 0, file, src.bind (·.2.1), src.bind (·.2.2), flags⟩
+    | _, _, _ => none
+  | _ => none
+
 end PT
